@@ -149,7 +149,11 @@ pub(super) fn animate<T: Component>(
             }
             continue;
         }
-        let position_secs = animator.timeline_position.as_secs_f32();
+        // Not `as_secs_f32`: that rounds the nanoseconds to `f32` before dividing and is off by one
+        // ulp even for exactly representable positions (0.5625 s becomes 0.56249994), so an animator
+        // whose position equals the duration would not end (never, if the following frames are
+        // zero-length).
+        let position_secs = animator.timeline_position.as_secs_f64() as f32;
         let timeline = animator.timeline.as_ref().unwrap();
         // Early assignments are needed to make Rust's borrow checker happy; it won't let us read
         // from the `timeline` struct anymore after the `update`.
